@@ -51,8 +51,15 @@ def main(argv: List[str]) -> int:
     ms = docs.gen_models(lo + 40000, lo + 40000 + doccheck.budget(120, 2000) - 1, True, False, rep)
     ritems = {}
     for seed, dm in ms:
-        for flips in ([], [False], [False, True], [True, False, True, False]):
+        for flips in ([], [False], [False, True], [True, False, True, False], 'moved'):
             m = copy.deepcopy(dm['model'])
+            if flips == 'moved':
+                # built and rendered in a database with the other flag, then moved into one with this flag (alternately on / off)
+                m['allowprops'] = seed % 2 == 0
+                tid += 1
+                ritems[tid] = {'tid': tid, 'route': 'moved', 'doc': dm['doc'], 'model': m, 'fseed': None, 'pinned': {}, 'seed': seed,
+                               'flips': [], 'variant': 'moved'}
+                continue
             if flips:
                 m['allowprops'] = flips[-1]
             tid += 1
